@@ -158,7 +158,11 @@ class Shard:
             except CaseTimeout:
                 fr["inconclusive"] += 1
                 out = Outcome("inconclusive")
-            except Exception as e:  # noqa: BLE001 - classified below
+            except BaseException as e:  # noqa: BLE001 - classified below
+                # BaseException: pyo3's PanicException (a Rust panic in an
+                # extension module) derives from it and must not kill the shard
+                if isinstance(e, (KeyboardInterrupt, SystemExit)):
+                    raise
                 what, sig, detail = classify_exception(self.pid, e)
                 if what == "harness":
                     fr["harness"].append({"kind": kind.name,
